@@ -472,6 +472,16 @@ func orderList(seed int64, shard, n int) []EvalCase {
 	for _, z := range zoneSpellings {
 		out = append(out, EvalCase{Src: "hour(useTimezone(t0, '" + z + "'))", Data: datas[0]}, EvalCase{Src: "timeFormat(useTimezone(t0, '" + z + "'), 'MST -0700')", Data: datas[1]})
 	}
+	// sibling host functions: which of them an earlier formula called does not matter to a later one
+	for _, src := range []string{"fmk1(n0)", "fmk2(n0)", "mget1(s0)", "mget2(s0)", "[fmk2(1), fmk1(1)]", "[mget2('k'), mget1('k')]", "fmk1(fmk2(s0))", "mget2(mget1('q'))"} {
+		for _, d := range datas {
+			out = append(out, EvalCase{Src: src, Data: d})
+		}
+	}
+	// names that are nearly builtins (a prefix, one letter more, another letter case): what the failure says is the same every time
+	for _, src := range nearBuiltinCalls() {
+		out = append(out, EvalCase{Src: src, Data: datas[0]})
+	}
 	// rejected texts of many kinds (what a diagnostic says does not depend on which texts were rejected before)
 	for _, bad := range rejectedTexts {
 		out = append(out, EvalCase{Src: bad, Data: datas[0]})
@@ -592,6 +602,35 @@ func init() {
 	})
 }
 
+// nearBuiltinCalls: calls of names that are not builtins but nearly so.
+func nearBuiltinCalls() []string {
+	var out []string
+	seen := map[string]bool{}
+	for _, b := range gen.Builtins {
+		seen[b] = true
+	}
+	add := func(name string) {
+		if name != "" && !seen[name] {
+			seen[name] = true
+			out = append(out, name+"(n0)", name+"(s0, 1)")
+		}
+	}
+	for _, b := range gen.Builtins {
+		add(b + "Up")
+		add(b + "Of")
+		add(b[:len(b)-1])
+		if len(b) > 3 {
+			add(b[:3])
+		}
+		add(strings.ToUpper(b[:1]) + b[1:])
+	}
+	add("ro")
+	add("to")
+	add("m")
+	add("s")
+	return out
+}
+
 func runC08(w *core.W) {
 	// first of all (nothing evaluated yet in this process): order independence across processes
 	c08Order(w, &OrderCase{Seed: w.Seed, Shard: w.Shard, N: w.Pick(600, 3000)})
@@ -615,6 +654,8 @@ func runC08(w *core.W) {
 	}
 	// literal spellings that the scanner has to rewrite (escapes, digit separators), and spread calls over data containers
 	pool = append(pool, hostileLiteralPool...)
+	pool = append(pool, "fmk1(n0)", "fmk2(n0)", "mget1(s0)", "mget2(s0)", "[fmk2(1), fmk1(1)]", "[mget2('k'), mget1('k')]", "fmk1(fmk2(s0))", "mget2(mget1('q'))")
+	pool = append(pool, nearBuiltinCalls()...)
 	pool = append(pool, "ym.true", "ym.null", "ym.k", "ym.name", "[ym.true, ym.true, ym.true]", "ym!.true + ''", "-max(d0, n0)", "-min(d0, 1)", "-finite(d0)", "-fid(d0)", "~fid(d0)", "-max(d0, 0) + d0", "date(0, 3, 5)", "year(date(0, 1, 1))", "date(n0, 1, 1)", "timeFormat(date(0, 2, 29), '2006-01-02')", "addDate(t0, 0, 0, 0)", "year(t0) - year(date(1, 1, 1))", "date(0, 0, 0)", "weekDay(date(2024, 2, 29))")
 	for _, f := range append(append([]string{}, stdFuncs...), safeBuiltins()...) {
 		for _, cont := range []string{"arr", "strs", "ms", "x0", "x1", "odd"} {
